@@ -201,9 +201,15 @@ def evaluate(case) -> Result:
             elif kind in ("DPR", "DPR_CLOSE") and cur is not None:
                 nc = w.node_conn_for(cur)
                 ready = nc is not None and nc.state in pm.PEER_READY_STATES
+                # a DWA that is already overdue: the I/O-loop turn woken by the DPR checks the timers first
+                overdue = ready and nc.is_waiting_for_dwa and nc.dwa_wait_time >= 10
                 hbh += 1
                 n0 = len(cur.refresh())
                 w.feed_msg(cur, {"k": "DPR", "host": "peer1.example", "hbh": hbh, "e2e": hbh})
+                if overdue and cur.refresh() is not None and cur.node_closed and \
+                        w.node.peers["peer1.example"].disconnect_reason == pm.DISCONNECT_REASON_DWA_TIMEOUT:
+                    res.classes.append("dpr-after-watchdog-expiry")
+                    ready = False
                 if ready:
                     dpr_cids.add(cur.remote.cid)
                     dpr_conns.append(cur)
